@@ -135,11 +135,15 @@ def jsonable(x):
 
 
 L2_GROUPS = {"T2": {"C01", "C02", "C03", "C04", "C05", "C06", "C07"}, "T1": {"C09", "C10", "C11"},
-             "T3": {"C05", "C06"}}
+             "T3": {"C05", "C06"}, "T4": {"C01", "C04", "C05"}, "T5": {"C08"}}
+L2_SOURCE = {"T1": ("translate.py", "Tr"), "T2": ("translate.py", "Tr"), "T3": ("translate.py", "Tr"),
+             "T4": ("translate_host.py", "TrHost"), "T5": ("translate_host.py", "TrHost")}
 L2_WHAT = {"T1": "index arithmetic of HostVector._update_vector_idxs, Scenario.get_state_dims / get_observation_dims / "
                  "get_action_space_size and ParameterisedActionSpace nvec",
            "T2": "gate cascade of Network.perform_action (order, polarity, chance comparison)",
-           "T3": "step-limit flag / reward expression of NASimEnv.step and generative_step"}
+           "T3": "step-limit flag / reward expression of NASimEnv.step and generative_step",
+           "T4": "host-level transition HostVector.perform_action (gates, access/value effects)",
+           "T5": "entitlement table of State.get_observation"}
 
 
 def level2(pid, log):
@@ -150,25 +154,30 @@ def level2(pid, log):
     os.makedirs(common.WORK, exist_ok=True)
     with open(os.path.join(common.WORK, "level2.lock"), "w") as lk:
         fcntl.flock(lk, fcntl.LOCK_EX)
-        rc, out = sh(f"NASIM_REPO={REPO} VERIF_COQ={COQ} {sys.executable} {VERIF}/translator/translate.py", timeout=120)
-        if rc != 0:
-            return dict(status="unavailable", groups=groups, detail=out.strip()[-600:], lemmas=0)
         q = "-Q theories NasimV -Q proofs NasimV.proofs -Q gen NasimV.gen -Q tie NasimV.tie"
-        rc, out = sh(f"timeout 300 coqc {q} gen/Tr.v", cwd=COQ, timeout=400)
-        res = dict(status="ok", groups=groups, lemmas=0, cmd=f"cd {COQ} && python3 ../translator/translate.py && coqc {q} gen/Tr.v tie/TieT*.v")
-        if rc != 0:
-            res.update(status="broken", broken="gen/Tr.v (regenerated from source) no longer type-checks against Gates.v",
-                       detail=out[-800:])
-        else:
-            for g in groups:
-                rc, out = sh(f"timeout 300 coqc {q} tie/Tie{g}.v", cwd=COQ, timeout=400)
-                n = out.count("Closed under the global context")
-                if rc != 0 or n == 0:
-                    res.update(status="broken", broken=f"tie/Tie{g}.v: equivalence of the regenerated {L2_WHAT[g]} with the model",
-                               detail=out[-800:])
+        res = dict(status="ok", groups=groups, lemmas=0,
+                   cmd=f"cd {COQ} && python3 ../translator/translate*.py && coqc {q} gen/Tr*.v tie/TieT*.v")
+        done_src = set()
+        for g in groups:
+            script, mod = L2_SOURCE[g]
+            if mod not in done_src:
+                done_src.add(mod)
+                rc, out = sh(f"NASIM_REPO={REPO} VERIF_COQ={COQ} {sys.executable} {VERIF}/translator/{script}", timeout=120)
+                if rc != 0:
+                    return dict(status="unavailable", groups=groups, detail=out.strip()[-600:], lemmas=0)
+                rc, out = sh(f"timeout 300 coqc {q} gen/{mod}.v", cwd=COQ, timeout=400)
+                if rc != 0:
+                    res.update(status="broken", detail=out[-800:],
+                               broken=f"gen/{mod}.v (regenerated from source) no longer type-checks against the model's vocabulary")
                     break
-                res["lemmas"] += n
-        sh("rm -f gen/Tr.vo gen/Tr.glob gen/Tr.vos gen/Tr.vok gen/.Tr.aux tie/*.vo tie/*.glob tie/*.vos tie/*.vok tie/.*.aux", cwd=COQ)
+            rc, out = sh(f"timeout 300 coqc {q} tie/Tie{g}.v", cwd=COQ, timeout=400)
+            n = out.count("Closed under the global context")
+            if rc != 0 or n == 0:
+                res.update(status="broken", broken=f"tie/Tie{g}.v: equivalence of the regenerated {L2_WHAT[g]} with the model",
+                           detail=out[-800:])
+                break
+            res["lemmas"] += n
+        sh("rm -f gen/Tr*.vo gen/Tr*.glob gen/Tr*.vos gen/Tr*.vok gen/.Tr*.aux tie/*.vo tie/*.glob tie/*.vos tie/*.vok tie/.*.aux", cwd=COQ)
         return res
 
 
